@@ -135,6 +135,10 @@ EvalE(P, e, env, st) ==
             IF ~Ok(a.st) THEN a
             ELSE LET v == IF e.m = "tag" THEN a.v * 2 + 1 ELSE a.v + 7 IN [v |-> v, st |-> Chk(a.st, v)]
       [] e.k = "bvar" -> [v |-> st.cells[env[e.s]], st |-> st]
+      [] e.k = "isnil" ->     \* x == nil | x != nil | nil == x | nil != x  for an interface, map or pointer variable x
+            LET c   == st.cells[env[e.s]]
+                isn == CASE e.sort = "if" -> c.dyn = "nil" [] e.sort = "map" -> c.mp = 0 [] OTHER -> FALSE
+            IN [v |-> IF e.op = "eq" THEN isn ELSE ~isn, st |-> st]
       [] e.k = "ucmp" ->      \* u == v  /  u != v  on struct values
             LET a == SBase(e.s, env)
                 b == SBase(e.from, env)
